@@ -40,17 +40,17 @@ theorem quiet_use (b : Base) (hq : quietBase b = true) (hs : b.sigOk = true) (h4
     · exact h2 a
     · exact h2 b'
 
-theorem backed_get {log : List Msg} {b : Base} (hb : backed wP log b = true) (hs : b.sigOk = true) (s : Nat)
-    (hmem : s ∈ b.signers) (hh : wP.honestId s = true) :
+theorem backed_get {log : List Msg} {b : Base} (hb : backed wP log b = true) (hs : b.sigOk = true) (hid : b.ident = ownIdent)
+    (s : Nat) (hmem : s ∈ b.signers) (hh : wP.honestId s = true) :
     ∃ m' ∈ log, m'.signers = [s] ∧ m'.type = b.type ∧ m'.round = b.round ∧ m'.root = b.root ∧ m'.dataRound = b.dataRound := by
   unfold backed at hb
-  simp only [hs, Bool.not_true, Bool.false_or, List.all_eq_true, Bool.or_eq_true, Bool.not_eq_true',
+  simp only [hs, hid, bne_self_eq_false, Bool.not_true, Bool.false_or, List.all_eq_true, Bool.or_eq_true, Bool.not_eq_true',
     List.any_eq_true] at hb
   rcases hb s hmem with h | ⟨m', hm', hsame⟩
   · rw [hh] at h; exact absurd h (by simp)
   · unfold sameSigned at hsame
     simp only [Bool.and_eq_true, beq_iff_eq] at hsame
-    obtain ⟨⟨⟨⟨⟨e1, e2⟩, _⟩, e4⟩, e5⟩, e6⟩ := hsame
+    obtain ⟨⟨⟨⟨⟨⟨e1, e2⟩, _⟩, e4⟩, e5⟩, e6⟩, _⟩ := hsame
     exact ⟨m', hm', e1, e2, e4, e5, e6⟩
 
 theorem uniq_three (l : List Nat) (hsub : ∀ x ∈ l, x = 1 ∨ x = 2 ∨ x = 3) (hq : 3 ≤ uniqueCount l) : 1 ∈ l ∧ 2 ∈ l := by
@@ -61,7 +61,7 @@ theorem uniq_three (l : List Nat) (hsub : ∀ x ∈ l, x = 1 ∨ x = 2 ∨ x = 3
 
 /-- no decided message validates: operators 1 and 2 committed in different rounds, operator 4 signs no commit -/
 theorem no_decided {log : List Msg} (hlog : WLog log) (i : Op wP) (m : Msg) (ha : authentic wP log m = true)
-    (hq : quiet m = true) : validateDecided (wP.cfg i) m ≠ .ok () := by
+    (hid : m.ident = ownIdent) (hq : quiet m = true) : validateDecided (wP.cfg i) m ≠ .ok () := by
   intro hv
   obtain ⟨ht, hqu, hnd, _, hso, hc, _⟩ := validateDecided_ok _ m () hv
   have hqb : quietBase m.toBase = true := by
@@ -71,8 +71,8 @@ theorem no_decided {log : List Msg} (hlog : WLog log) (i : Op wP) (m : Msg) (ha 
     fun x hx => committee_cases x (hc x hx) (fun e => h4 (e ▸ hx))
   have hlen : 3 ≤ m.signers.length := hqu
   obtain ⟨h1, h2⟩ := three_of_three m.signers hnd hsub hlen
-  obtain ⟨m1, hm1, s1, t1, r1, _, _⟩ := backed_get (authentic_base ha) hso 1 h1 (by decide)
-  obtain ⟨m2, hm2, s2, t2, r2, _, _⟩ := backed_get (authentic_base ha) hso 2 h2 (by decide)
+  obtain ⟨m1, hm1, s1, t1, r1, _, _⟩ := backed_get (authentic_base ha) hso hid 1 h1 (by decide)
+  obtain ⟨m2, hm2, s2, t2, r2, _, _⟩ := backed_get (authentic_base ha) hso hid 2 h2 (by decide)
   have e1 := (hlog m1 hm1 0 (by decide) s1).2 (by rw [t1]; exact ht)
   have e2 := (hlog m2 hm2 1 (by decide) s2).2 (by rw [t2]; exact ht)
   have l0 : (lockOf 0).1 = 1 := rfl
@@ -114,7 +114,7 @@ theorem no_proposal {log : List Msg} (hlog : WLog log) (i : Op wP) (s : State) (
     intro k sgn hk hid hh hne hin
     obtain ⟨rc, hrcin, hxs⟩ := (mem_signersOfL _ _).1 hin
     have V := hV rc hrcin
-    obtain ⟨m', hm', s', t', r', ro', d'⟩ := backed_get (hauth rc hrcin).1 V.sigOk sgn hxs hh
+    obtain ⟨m', hm', s', t', r', ro', d'⟩ := backed_get (hauth rc hrcin).1 V.sigOk V.ident sgn hxs hh
     have hrr : m'.round = m.round := by rw [r']; exact V.round
     have hl := (hlog m' hm' k hk (by rw [s', hid])).1 (by rw [t']; exact V.type) (by rw [hrr]; exact hmr)
     have hdr : rc.dataRound = (lockOf k).1 := by rw [← hl.1]; exact d'.symm
@@ -179,8 +179,8 @@ theorem w_update (σ : Sys wP) (hw : W σ) (i : Op wP) (hi : wP.honest i = true)
 /-- a node transition of a wedged operator is a no-op, a round-change container update, or a jump to a higher round -/
 theorem w_nstep (σ : Sys wP) (hw : W σ) (i : Op wP) (hi : wP.honest i = true) (c' : Ctrl) (outs : List Out)
     (evs : List (Ev (Op wP))) (hsh : Shape 0 c')
-    (hst : NStep (wP.cfg i) 0 (fun m => authentic wP σ.log m = true ∧ quiet m = true) i (instAt 0 (σ.ctrl i))
-      (instAt 0 c') (bcasts outs) evs) : W (σ.update i c' outs evs) := by
+    (hst : NStep (wP.cfg i) 0 (fun m => (authentic wP σ.log m = true ∧ m.ident = ownIdent) ∧ quiet m = true) i
+      (instAt 0 (σ.ctrl i)) (instAt 0 c') (bcasts outs) evs) : W (σ.update i c' outs evs) := by
   obtain ⟨s, hs, hn⟩ := hw.node i hi
   have hlr : s.lastPreparedRound ≠ 0 := by
     rw [hn.lpr]; rcases honest_cases i hi with rfl | rfl | rfl <;> decide
@@ -195,11 +195,11 @@ theorem w_nstep (σ : Sys wP) (hw : W σ) (i : Op wP) (hi : wP.honest i = true) 
     · rw [h3]; intro e he; simp at he
   | create v h0 h1 h2 h3 => rw [hs] at h0; simp at h0
   | createDecided m ha h0 hv hh h1 h2 h3 => rw [hs] at h0; simp at h0
-  | adopt s0 m ha h0 hd hv hh h1 h2 h3 => exact absurd hv (no_decided hw.log i m ha.1 ha.2)
-  | more s0 m ha h0 hd hv hh h1 h2 h3 => exact absurd hv (no_decided hw.log i m ha.1 ha.2)
+  | adopt s0 m ha h0 hd hv hh h1 h2 h3 => exact absurd hv (no_decided hw.log i m ha.1.1 ha.1.2 ha.2)
+  | more s0 m ha h0 hd hv hh h1 h2 h3 => exact absurd hv (no_decided hw.log i m ha.1.1 ha.1.2 ha.2)
   | prop s0 m ha h0 hv hnew h1 h2 h3 =>
     have := same h0; subst this
-    exact absurd hv (no_proposal hw.log i s0 hn.round m ha.1 ha.2)
+    exact absurd hv (no_proposal hw.log i s0 hn.round m ha.1.1 ha.2)
   | prep s0 m p ha h0 hacc hv h1 h2 h3 =>
     have := same h0; subst this
     rw [hn.acc] at hacc; simp at hacc
@@ -243,20 +243,20 @@ theorem w_step (σ : Sys wP) (hw : W σ) (a : Action wP) (hen : enabled σ a = t
   cases a with
   | start i v =>
     have hi : wP.honest i = true := hen
-    obtain ⟨h1, h2⟩ := ctrl_start_node (wP.cfg i) 0 (fun m => authentic wP σ.log m = true ∧ quiet m = true) i (σ.ctrl i) v
+    obtain ⟨h1, h2⟩ := ctrl_start_node (wP.cfg i) 0 (fun m => (authentic wP σ.log m = true ∧ m.ident = ownIdent) ∧ quiet m = true) i (σ.ctrl i) v
       (hw.shape i) (capacity_pos wP i)
     exact w_nstep σ hw i hi _ _ _ h1 h2
   | deliver i m =>
     have hen' : wP.honest i = true ∧ authentic wP σ.log m = true := by
       simpa [enabled] using hen
     have hq' : quiet m = true := hq
-    obtain ⟨h1, h2⟩ := ctrl_processMsg_node (wP.cfg i) 0 (fun m => authentic wP σ.log m = true ∧ quiet m = true) i (σ.ctrl i) m
-      (hw.shape i) (capacity_pos wP i) ⟨hen'.2, hq'⟩
-      (fun hv _ => absurd hv (no_decided hw.log i m hen'.2 hq'))
+    obtain ⟨h1, h2⟩ := ctrl_processMsg_node (wP.cfg i) 0 (fun m => (authentic wP σ.log m = true ∧ m.ident = ownIdent) ∧ quiet m = true) i (σ.ctrl i) m
+      (hw.shape i) (capacity_pos wP i) (fun hid => ⟨⟨hen'.2, hid⟩, hq'⟩)
+      (fun hv hid => absurd hv (no_decided hw.log i m hen'.2 hid hq'))
     exact w_nstep σ hw i hen'.1 _ _ _ h1 h2
   | timeout i r =>
     have hi : wP.honest i = true := hen
-    obtain ⟨h1, h2⟩ := ctrl_onTimeout_node (wP.cfg i) 0 (fun m => authentic wP σ.log m = true ∧ quiet m = true) i (σ.ctrl i) r
+    obtain ⟨h1, h2⟩ := ctrl_onTimeout_node (wP.cfg i) 0 (fun m => (authentic wP σ.log m = true ∧ m.ident = ownIdent) ∧ quiet m = true) i (σ.ctrl i) r
       (hw.shape i)
     exact w_nstep σ hw i hi _ _ _ h1 h2
 
